@@ -9,7 +9,8 @@ mkdir -p .build evidence replays
 (cd extract && go build -o ../.build/foxfacts .)
 ./.build/foxfacts "${VERIF_REPO:-/repo}" lean/FoxModel/Generated
 (cd lean && lake build)
-cp "${VERIF_REPO:-/repo}/go.sum" harness/go.sum
-(cd harness && go build -tags verif -o ../.build/foxharness .)
+sed "s#=> /repo#=> ${VERIF_REPO:-/repo}#" harness/go.mod > .build/harness.mod
+cp "${VERIF_REPO:-/repo}/go.sum" .build/harness.sum
+(cd harness && go build -modfile=../.build/harness.mod -tags verif -o ../.build/foxharness .)
 rm -f .build/go.stamp
 echo "setup ok"
